@@ -28,9 +28,9 @@ def run(tier: str, seed: int):
         e3c += list(F.fam_e3(F.fam_limits(2, 2, tnames=('TA',)), workers=(2,), backends=('fork',), liveness=False, queue_scale=1, monitor=True))
     else:
         cfgs = (list(F.fam_faults(1, 4, max_faults=2, reqs='subsets', batch=3)) + list(F.fam_faults(5, 5, max_faults=1, reqs='sinks'))
-                + list(F.fam_limits(1, 4, batch=3, faults=True, stutter=True, tnames=('TA', 'TB', 'TC', 'TD'))) + list(F.fam_shapes(1, 4, batch=2)) + list(F.fam_shapes(5, 5, batch=2, pre=False)))
+                + list(F.fam_limits(1, 3, batch=3, faults=True, stutter=True, tnames=('TA', 'TB', 'TC', 'TD'))) + list(F.fam_limits(4, 4, batch=3, faults=True, tnames=('TA', 'TB', 'TC', 'TD'))) + list(F.fam_shapes(1, 4, batch=2)) + list(F.fam_shapes(5, 5, batch=2, pre=False)))
         serial = list(F.fam_faults(1, 4, max_faults=2, kinds=('raise',))) + list(F.fam_limits(1, 4, batch=1))
-        rule = 'n<=5 (n=5: cold cache); fault sets <=2; limits {None,1,2,3}; stutter'
+        rule = 'n<=5 (n=5: cold cache); fault sets <=2; limits {None,1,2,3}; empty polls up to n=3'
         e3c = list(F.fam_e3(F.fam_faults(2, 3, max_faults=1, reqs='all'), workers=(1, 2), monitor=True, liveness=False))
         e3c += list(F.fam_e3(list(F.fam_faults(1, 3, max_faults=2)) + list(F.fam_limits(1, 3, tnames=('TA', 'TB', 'TC'), faults=True)), workers=(1, 2, None), die_exit0=(False, True))) + list(F.fam_e3(F.fam_faults(4, 4, max_faults=1, reqs='sinks'), workers=(1, 2), liveness=False))
         e3c += list(F.fam_e3(F.fam_shapes(1, 4, pre=False), workers=(None,), cpu_count=1, liveness=False)) + list(F.fam_e3(F.fam_limits(2, 3, tnames=('TA', 'TB')), workers=(1, 2), linger=True))
